@@ -19,6 +19,7 @@ import common
 import e2e
 import impl
 import sites
+import callshapes
 
 CACHE = Path(os.environ.get("VERIF_CACHE", "/var/tmp/verif-cache"))
 
@@ -29,7 +30,7 @@ def src_hash() -> str:
         if p.is_file() and p.suffix in (".py", ".yaml", ".md", ".toml"):
             h.update(str(p.relative_to(common.REPO)).encode())
             h.update(p.read_bytes())
-    for p in sorted((common.VERIF / "harness").glob("*.py")) + [common.VERIF / "harness" / "corpus" / "seeds.json"]:
+    for p in sorted((common.VERIF / "harness").glob("*.py")) + [common.VERIF / "harness" / "corpus" / "seeds.json", common.VERIF / "harness" / "corpus" / "extra_seeds.json"]:
         h.update(p.read_bytes())
     return h.hexdigest()[:16]
 
@@ -185,6 +186,7 @@ def run_pass(tier: str, seed: int, want: set[str] | None = None) -> dict:
             keys = list(vs) if tier != "quick" else (["identity"] + rng.sample([k for k in vs if k != "identity"], min(5, len(vs) - 1)))
             for k in keys:
                 programs[f"s{si}_{k.replace('-', '_')}"] = vs[k]
+        programs.update(callshapes.programs(cid, rng, 8 if tier == "quick" else 0))
         jobs.append({"codemod": cid, "programs": programs})
     results = impl.pool_map(one_codemod, jobs)
     out = {}
